@@ -15,6 +15,7 @@ import YardlModel.SyntaxJson
 import YardlModel.TypeParser
 import YardlModel.Determinism
 import YardlModel.Namespaces
+import YardlModel.ProtoMatlab
 import YardlModel.Evolution
 import YardlModel.Topo
 import YardlModel.Names
@@ -524,6 +525,14 @@ def handle (j : Json) : Except String Json := do
         | .ok vj => do pure (Json.str (toHex (enc t (← valOfJson vj))))
         | .error _ => pure Json.null
       pure (Json.mkObj [("plan", Schema.tyToJson t), ("hex", hex)])
+  | "matlab_rows" =>
+    -- the method tables of the MATLAB base classes of a protocol shape (which steps are streams)
+    let shape ← (← (← j.getObjVal? "shape").getArr?).toList.mapM (·.getBool?)
+    let kindS : Proto.MKind → String
+      | .write => "write" | .endS => "endS" | .read => "read" | .has => "has" | .close => "close"
+    let enc (rs : List Proto.MRow) : Json :=
+      Json.arr (rs.map fun r => Json.arr #[Json.str (kindS r.kind), jn r.step, jn r.guard, match r.next with | some n => jn n | none => Json.null]).toArray
+    pure (Json.mkObj [("writer", enc (Proto.matWriterRows shape)), ("reader", enc (Proto.matReaderRows shape))])
   | "namespaces" =>
     -- parsePackageNamespaces + flattenNamespaces over a loaded import graph given by namespace: {"graph": [[ns, [imported ns, ...]], ...], "root": ns}
     let g ← (← j.getObjVal? "graph").getArr?
